@@ -8,6 +8,8 @@ if [ -f tools/py2lean.py ]; then
   /venv/bin/python tools/py2dom.py --repo /repo --out lean/PGM/Generated || true
   /venv/bin/python tools/py2cv.py --repo /repo --out lean/PGM/Generated || true
   /venv/bin/python tools/py2factor.py --repo /repo --out lean/PGM/Generated || true
+  /venv/bin/python tools/py2total.py --repo /repo --out lean/PGM/Generated || true
+  /venv/bin/python tools/py2gm.py --repo /repo --out lean/PGM/Generated || true
 fi
 cd lean
 lake build PGM pgmdriver pgmgen
